@@ -3,6 +3,7 @@ package jsonapi
 import (
 	"bytes"
 	"encoding/json"
+	"reflect"
 	"sort"
 	"time"
 )
@@ -107,6 +108,18 @@ func (f *Filter) IsAllowed(res Resource) bool {
 
 func checkVal(op string, rval, cval any) bool {
 	switch rval := rval.(type) {
+	case nil:
+		// A nil nullable value comes without its type from a wrapped
+		// struct (and with it from a SoftResource). Either way it
+		// equals only nil and is never ordered.
+		switch op {
+		case "=":
+			return isNilValue(cval)
+		case "!=":
+			return !isNilValue(cval)
+		default:
+			return false
+		}
 	case string:
 		return checkStr(op, rval, cval.(string))
 	case int:
@@ -322,6 +335,17 @@ func checkVal(op string, rval, cval any) bool {
 	default:
 		return false
 	}
+}
+
+// isNilValue reports whether v is nil or a nil pointer.
+func isNilValue(v any) bool {
+	if v == nil {
+		return true
+	}
+
+	val := reflect.ValueOf(v)
+
+	return val.Kind() == reflect.Ptr && val.IsNil()
 }
 
 func checkStr(op string, rval, cval string) bool {
